@@ -44,7 +44,7 @@ def _(price: REAL) -> REAL:
 
 # ----------------------------------------------------------------------------- price_ticks_away
 const("flumine.utils", "PRICES", ground_numbers("PRICES"))
-const("flumine.utils", "BETDAQ_PRICES", ground_numbers("BETDAQ_PRICES"))
+const("flumine.utils", "BETDAQ_PRICES", bands(1000, (1.01, 3, 0.01), (3, 4, 0.05), (4, 10, 0.1), (10, 20, 0.5), (20, 50, 1), (50, 200, 2), (200, 1000, 5)))  # ground-checked (extra_c17.py)
 const("flumine.utils", "FINEST_PRICES", grid(1.01, 0.01, 99899))  # ground-checked every run (extra_c17.py)
 
 
